@@ -22,14 +22,15 @@ RULE = ("fault space = (bus standard, topology, timeout T in {1,2,3,5,8,16}, whi
         "T-2..T (incl. the very cycle the timer expires); unmapped addresses are issued where a timeout exists. Oracle: every "
         "request terminates exactly once; a timed-out one within T + c_bus cycles of being granted, with the bus's error "
         "indication (Wishbone: ack, all-ones data, error pulse; AXI: SLVERR, all-ones read data, last); an answered one "
-        "unmodified; the history completes (recovery). Non-trivial = at least one request was terminated by the timeout "
+        "unmodified; the history completes (recovery). Fault kind 'wfirst' (AXI-Lite, shared): masters present write data one to six "
+        "cycles before the address (legal), idle address lines already carrying the target. Non-trivial = at least one request was terminated by the timeout "
         "or raced it (answered within 2 cycles of expiry); distinct = distinct (configuration, fault) digests")
 ASSUMPTIONS = ["migen tracer shim (names only)", "a faulty slave stays mute for ever from the fault instant (a slave answering after "
                "its request was already terminated is outside the property)", "c_bus = 1 (Wishbone), 4 (AXI-Lite/AXI: WAIT->RESPOND hand-over + B/R handshake)"]
 FLOORS = {"quick": {"timeouts_observed": 1200, "answered_in_time": 3000, "races_at_expiry": 100, "fault_instants": 900,
-                    "waittimer_cycles": 3000, "error_pulses_counted": 200},
+                    "waittimer_cycles": 3000, "error_pulses_counted": 200, "fault_instants_with_write_data_before_address": 30},
           "thorough": {"timeouts_observed": 20000, "answered_in_time": 40000, "races_at_expiry": 1500, "fault_instants": 15000,
-                       "waittimer_cycles": 40000, "error_pulses_counted": 1500}}
+                       "waittimer_cycles": 40000, "error_pulses_counted": 1500, "fault_instants_with_write_data_before_address": 500}}
 SHARD_TIMEOUT = {"quick": 900, "thorough": 3000}
 N_SAMPLES = 4
 TS = [1, 2, 3, 5, 8, 16]
@@ -44,7 +45,7 @@ def plan(tier, seed):
         for T in TS:
             for std in ("wb", "axil", "axi"):
                 for topo in ("shared", "alone", "crossbar"):
-                    kinds = ["all"] if std == "wb" else ["all", "resp", "addr", "aw", "w"]
+                    kinds = ["all"] if std == "wb" else ["all", "resp", "addr", "aw", "w"] + (["wfirst"] if std == "axil" and topo == "shared" else [])
                     for kind in kinds:
                         if topo == "crossbar" and kind != "all":
                             continue
@@ -217,13 +218,16 @@ def run_axi(case, rng, full):
         else:
             writes = [{"addr": addr(i), "data": (mi << 28) | (i << 16) | rng.getrandbits(16), "strb": 0xf, "prot": mi} for i in range(nw)]
             reads = [{"addr": addr(i), "prot": mi} for i in range(nr)]
-            mags.append(bench.add(AXILMaster(m, writes, reads, rng, order="together", max_out=1,
+            # 'wfirst': write data is presented before its address (legal); the idle AW address lines already carry the target, so that
+            # the listed decoder finding (W routed by the idle AW address) is not what is being looked at
+            mags.append(bench.add(AXILMaster(m, writes, reads, rng, order="w_first" if case["kind"] == "wfirst" else "together",
+                                             hold_next_addr=(case["kind"] == "wfirst"), max_out=1,
                                              p_aw=rng.choice([1.0, 0.5]), p_w=1.0, p_ar=rng.choice([1.0, 0.5]), name="m%d" % mi)))
         mmons.append(port_monitors(bench, m, "m%d" % mi, "responses"))
     # 'addr': the slave stops accepting any request channel (address and data) but still answers what it accepted before;
     # address and data are presented together so that a request is never half accepted by a slave and half by the timeout
     # 'aw' / 'w': exactly one write request channel stalls for ever while the other one keeps accepting
-    mk = {"all": "all", "resp": ("b", "r"), "addr": ("aw", "ar", "w"), "aw": ("aw",), "w": ("w",), "slow": None}[case["kind"]]
+    mk = {"all": "all", "resp": ("b", "r"), "addr": ("aw", "ar", "w"), "aw": ("aw",), "w": ("w",), "slow": None, "wfirst": "all"}[case["kind"]]
     for si, s in enumerate(slaves):
         kw = {}
         if case["kind"] == "slow" and si == faulty:
@@ -322,7 +326,7 @@ def run_axi(case, rng, full):
                 if sb.get(e[0]) is None and k < len(m.offered["aw"]):
                     wi = [i_ for i_, (cw, tok) in enumerate(m.log["w"])] if not full else None
                     prog = [m.offered["aw"][k]]
-                    if m.log["aw"][k][0] in s_acc["aw"]:
+                    if k < len(m.log["aw"]) and m.log["aw"][k][0] in s_acc["aw"]:
                         prog.append(m.log["aw"][k][0])
                     if not full and k < len(m.offered["w"]):
                         prog.append(m.offered["w"][k])
@@ -341,6 +345,24 @@ def run_axi(case, rng, full):
                     if e[0] - max(prog) > T + 4:
                         errs.append({"kind": "timeout-response-later-than-T-plus-bus-latency", "dir": "read", "k": k, "T": T,
                                      "last_progress": max(prog), "response": e[0]})
+    # write responses that a master received before the address of that write had been transferred (only possible when data is
+    # presented before the address: the time-out absorbs the lone W and answers it at once)
+    early_b = [(mi, k) for mi, m in enumerate(mags) for k, e in enumerate(m.log["b"])
+               if k >= len(m.log["aw"]) or e[0] < m.log["aw"][k][0]] if not full else []
+    # match every write response with an earlier, still unanswered address transfer (all masters share one write path): a
+    # response that finds none came early and answers nothing; an address left unmatched at the end was never answered
+    evs = sorted([(e[0], 0) for m in mags for e in m.log["aw"]] + [(e[0], 1) for m in mags for e in m.log["b"]]) if not full else []
+    open_aw = 0
+    for _, is_b in evs:
+        open_aw = max(0, open_aw - 1) if is_b else open_aw + 1
+    if early_b and open_aw > 0:
+        # the address of a write that was answered early arrives later as a request of its own; it is then accepted by a live
+        # slave, where it waits for data that were absorbed long ago, or swallowed by the time-out together with the next write's
+        # address (one response for two addresses): a transferred address is never answered and the arbiter stays locked
+        for e in errs:
+            if e["kind"] == "request-never-terminated":
+                e["kind"] = "early-write-response-then-a-transferred-address-is-never-answered"
+                e["early_b(master,k)"], e["addresses_never_answered"] = early_b[:4], open_aw
     if acc_missing:
         # some request was accepted by a slave and its response never came: with the grant/select locked behind it every
         # other hang of this history is a consequence
@@ -356,7 +378,7 @@ def run_axi(case, rng, full):
                 errs.append({"kind": "%s-%s" % (ch, sv["kind"]), "port": mon.name, "at": sv})
     if case["kind"] == "slow" and case["lat"] >= T - 1:
         races = intime + timeouts
-    return {"errs": errs, "timeouts": timeouts, "intime": intime, "races": races, "capped": not ok,
+    return {"errs": errs, "timeouts": timeouts, "intime": intime, "races": races, "capped": not ok, "early_b": len(early_b),
             "sample": {"b": mags[0].log["b"][:3], "r": mags[0].log["r"][:3], "error_pulses": em.cycles[:4]},
             "cycles": bench.cycle["sys"]}
 
@@ -548,9 +570,12 @@ def run_shard(shard):
         col.ev("races_at_expiry", r["races"])
         col.ev("waittimer_cycles", r.get("wt", 0))
         col.ev("error_pulses_counted", r.get("pulses", 0))
+        col.ev("write_responses_before_their_address_observed", r.get("early_b", 0))
         col.ev("sim_cycles", r["cycles"])
         if "mute_from" in case:
             col.ev("fault_instants")
+            if case["kind"] == "wfirst":
+                col.ev("fault_instants_with_write_data_before_address")
             col.cov("fault_instants_swept", "%s/%s/%s/%d" % (case["std"], case["topo"], case["kind"], case["mute_from"]))
         col.cov("configs", "%s/%s/T%d/%s" % (case["std"], case["topo"], case["T"], case["kind"]))
         kinds = [e["kind"] for e in r["errs"]]
